@@ -41,6 +41,11 @@ def cases(tier, seed):
             "gtol": 1e-9,
             "cb": "never",
         }
+        if i % 13 == 12:
+            # scale: dimensions and memories larger than the bulk of the cases
+            ps["n"] = int(rng.integers(25, 61))
+            cfg["maxcor"] = int(rng.integers(11, 31))
+            cfg["maxiter"] = int(gen.pick(rng, [60, 150]))
         if i % 4 == 1:
             cfg["max_steplength"] = float(gen.pick(rng, [0.05, 0.1, 0.2, 0.5, 1.0, 2.0]))  # the user's cap on the step length
         yield {"problem": ps, "cfg": cfg}
